@@ -399,8 +399,9 @@ class Function:
             out.append(n)
         return out
 
-    def guards(self, x_or_bid):
-        """list of (cond X, truth/case) whose outcome dominates the element/block.
+    def guards(self, x_or_bid, fresh=True):
+        """list of (cond X, truth/case) whose outcome dominates the element/block and (fresh=True) whose
+        variables cannot be redefined between the branch and the element.
         truth is True/False for two-way branches; for switches ('case', lo, hi) or
         ('default', [ranges])"""
         bid = x_or_bid if isinstance(x_or_bid, int) else self.pos[x_or_bid.id][0]
@@ -415,6 +416,8 @@ class Function:
             if src.term is None or 'cond' not in src.term:
                 continue
             cond = self.x(src.term['cond'])
+            if fresh and not self._fresh(cond, src.succs[d[2]], x_or_bid):
+                continue
             if src.term['k'] == 'switch':
                 tgt = self.blocks[src.succs[d[2]]]
                 lab = tgt.label
@@ -430,6 +433,61 @@ class Function:
             else:
                 out.append((cond, d[2] == 0))
         return out
+
+    # ---- staleness of guards
+    def _def_blocks(self, root):
+        cache = getattr(self, '_defblk', None)
+        if cache is None:
+            cache = {}
+            for xx in self.all_x():
+                tgt = None
+                if xx.k == 'asg' or (xx.k == 'un' and xx.op in ('pre++', 'pre--', 'post++', 'post--')):
+                    tgt = xx.args[0]
+                elif xx.k == 'decl' and xx.n.get('d') and xx.args:
+                    cache.setdefault(xx.n['d'], []).append(self.pos[xx.id])
+                if tgt is not None:
+                    v = tgt.strip()
+                    while v is not None and v.k in ('mem', 'idx', 'cast') and v.args:
+                        v = v.args[0].strip() if v.args[0] is not None else None
+                    if v is not None and v.k == 'ref':
+                        cache.setdefault(v.n['d'], []).append(self.pos[xx.id])
+            self._defblk = cache
+        return cache.get(root, [])
+
+    def _reach(self, a, b, avoid=None):
+        seen, work = set(), [a]
+        while work:
+            t = work.pop()
+            if t in seen or t is None or t == avoid:
+                continue
+            seen.add(t)
+            for s_ in self.blocks[t].succs:
+                if s_ == b:
+                    return True
+                if s_ is not None:
+                    work.append(s_)
+        return False
+
+    def _fresh(self, cond, edge_target, x_or_bid):
+        gb = self.pos[cond.id][0]      # the block that evaluates the guard: passing it again re-establishes it
+        if isinstance(x_or_bid, int):
+            xb, xi = x_or_bid, -1
+        else:
+            xb, xi = self.pos[x_or_bid.id]
+        for r in cond.refs():
+            if r[:2] in ('F:', 'E:'):
+                continue
+            for (db_, di) in self._def_blocks(r):
+                if db_ == xb and not (edge_target == xb and False):
+                    # a def in x's own block counts only if it precedes x there and the block is entered after the edge
+                    if xi >= 0 and di < xi and (edge_target == xb or self._reach(edge_target, xb, gb)):
+                        return False
+                    continue
+                if db_ == gb:
+                    continue
+                if (db_ == edge_target or self._reach(edge_target, db_, gb)) and self._reach(db_, xb, gb):
+                    return False
+        return True
 
     def dominates(self, xa, xb):
         """element xa is executed before xb on every path from entry to xb"""
